@@ -39,7 +39,7 @@ func (c12) Rule() string {
 func (c12) Assumptions() []string {
 	return []string{
 		"the injected error is recognised by errors.As/Is or by its unique token in the error text (wrapping without %w is not a false alarm); a hash mismatch reported by go-ipld-prime for corrupted bytes counts as the load error",
-		"file DAGs declare child sizes (interior nodes without BlockSizes must open every child before the first byte and are excluded from this property)",
+		"for file nodes without BlockSizes (the reader must open children to learn their length) the prefix requirement is relaxed to 'a correct prefix no longer than the missing span's start', and a transient fault absorbed by a later successful load of the same block is accepted",
 		"an empty (zero-length) block is needed by a full sequential read like any other block: the read visits every block of the file in link order",
 		"only error-returning entry points are judged (native Lookup/Length cannot report an error)",
 		"the root block of the entity is available (otherwise nothing can be opened)",
@@ -56,7 +56,7 @@ func (c12) Runs(t Tier) int {
 }
 func (c12) RecordWidths() map[string]int { return nil }
 func (c12) RequiredProbes() []string {
-	return []string{"missing-interior-file-block", "missing-last-leaf", "missing-first-leaf", "missing-last-link-shard", "missing-nested-shard", "lookup-blocked", "lookup-not-blocked-under-fault", "kth-load-transient", "subset-fault", "hamt-depth>=3", "dedup-file-block-faulted", "missing-empty-block", "repeated-lookups-same-node", "file-reread-after-recovery", "iterate-again-after-recovery", "well-known-error-value"}
+	return []string{"missing-interior-file-block", "missing-last-leaf", "missing-first-leaf", "missing-last-link-shard", "missing-nested-shard", "lookup-blocked", "lookup-not-blocked-under-fault", "kth-load-transient", "subset-fault", "hamt-depth>=3", "dedup-file-block-faulted", "missing-empty-block", "repeated-lookups-same-node", "file-reread-after-recovery", "iterate-again-after-recovery", "well-known-error-value", "file-without-blocksizes", "preload-under-fault"}
 }
 
 type c12Scenario struct {
@@ -240,7 +240,17 @@ func (c12) runFile(ts *tape.Set, tier Tier) *Result {
 	if tier == Thorough {
 		maxSize = 12 << 10
 	}
-	spec := gen.DrawFileSpec(shape, gen.FileOpts{MaxSize: maxSize, AllowOdd: true, MultiBlock: true})
+	spec := gen.DrawFileSpec(shape, gen.FileOpts{MaxSize: maxSize, AllowOdd: true, AllowNoSizes: true, MultiBlock: true})
+	// interior nodes without BlockSizes: the reader has to open children to
+	// learn their length, so a failure may surface earlier than the missing
+	// block's span, and a transient failure met while measuring may be absorbed
+	// by the later, successful load. What stays required: a persistent fault
+	// ends in the load error (never EOF), and the bytes before it are a correct
+	// prefix no longer than the span start.
+	noSizes := spec.Writer == "odd-noblocksizes"
+	if noSizes {
+		res.probe("file-without-blocksizes")
+	}
 	via := shape.Intn(2)
 	fragMode := shape.Pick(2, 1, 1, 1)
 	fragSeed := shape.Raw()
@@ -497,6 +507,23 @@ func (c12) runFile(ts *tape.Set, tier Tier) *Result {
 		}
 		sig = fnvMix(sig, uint64(p.kind), boolU(p.kth >= 0), uint64(len(p.targets)), boolU(rerr == io.EOF), boolU(isLoadError(rerr)))
 		sig = sigOfLog(sig, log)
+		if noSizes && p.kth >= 0 && rerr == io.EOF && bytes.Equal(data, content) {
+			res.probe("transient-fault-absorbed-while-measuring")
+			continue
+		}
+		if noSizes {
+			// any correct prefix up to the span start is acceptable
+			max := int64(-1)
+			for l := range okLens {
+				if l > max {
+					max = l
+				}
+			}
+			if p.kth >= 0 {
+				max = int64(len(content))
+			}
+			okLens = map[int64]bool{int64(len(data)): int64(len(data)) <= max}
+		}
 		switch {
 		case rerr == io.EOF || rerr == nil:
 			if bytes.Equal(data, content) {
@@ -831,6 +858,42 @@ func (c12) runDir(ts *tape.Set, tier Tier) *Result {
 					}
 				}
 				if res.Violation != nil {
+					break
+				}
+			}
+		}
+
+		// ---- preloading reification is an operation that can report: with a
+		// shard persistently unavailable it must return the load error
+		if p.kth < 0 {
+			st.ResetLog()
+			st.ReadPolicy = nil
+			w := world.New(st, false)
+			rn, lerr := w.LoadRoot(root)
+			if lerr == nil {
+				hitsP := p.install(st)
+				var perr error
+				panicked, site, pmsg := guard(func() {
+					_, perr = w.LS.KnownReifiers["unixfs-preload"](linking.LinkContext{}, rn, &w.LS)
+				})
+				res.Execs++
+				res.Events += len(st.Log)
+				res.probe("preload-under-fault")
+				if panicked {
+					fail("c12/preload/panic@"+site, "preload panicked: %s", pmsg)
+					break
+				}
+				if len(hitsP()) > 0 && perr == nil {
+					fail("c12/preload/error-swallowed", "a shard could not be loaded during the preloading reification but it reported success")
+					break
+				}
+				if perr != nil && !isLoadError(perr) && !strings.Contains(perr.Error(), "could not fully explore") {
+					fail("c12/preload/foreign-error", "preload failed with %q which is not the load error", perr.Error())
+					break
+				}
+				if len(hitsP()) == 0 && perr == nil {
+					// every shard is needed by a preload: the fault must have been met
+					fail("c12/preload/fault-not-met", "preload succeeded without requesting the unavailable shard")
 					break
 				}
 			}
